@@ -528,7 +528,13 @@ where
             libc::close(fd);
         }
     }
-    set_mem_limit(cfg.mem_bytes);
+    // the budget is on top of what the child inherited from the parent (copy-on-write tables)
+    let inherited = std::fs::read_to_string("/proc/self/statm")
+        .ok()
+        .and_then(|t| t.split_whitespace().next().and_then(|x| x.parse::<u64>().ok()))
+        .map(|pages| pages * 4096)
+        .unwrap_or(0);
+    set_mem_limit(cfg.mem_bytes + inherited + (600 << 20));
     let timeout = cfg.case_timeout_s;
     let slot_addr = slot as usize;
     // watchdog: a case that makes no progress for `timeout` seconds ends the process
